@@ -48,6 +48,12 @@ def corpus_strings():
         out.append((b'"\\%o"' % n, el))
         out.append((b'"\\%03o"' % n, el))
         out.append((b'"x\\%03o\\%03o"' % (n & 0o777, (n + 1) & 0o777), el))
+    # second-level escapes: every byte after an escape introducer that takes an argument
+    for e in range(256):
+        for intro in (b"^", b"C-", b"M-", b"x", b"u", b"u00", b"U", b"N", b"N{", b"N{U+", b"1", b"12"):
+            out.append((b'"\\' + intro + bytes([e]) + b'"', el))
+        out.append((b'"\\x' + bytes([e]) + b';"', r6))
+        out.append((b'"\\x4' + bytes([e]) + b';"', r6))
     for t in (b'"\\x41 z"', b'"\\x41\xc3\xa9z"', b'"\\x41-"', b'"\\x41.;"', b'"a\\x3bb\xce\xbb;"', b'"\\x;"', b'"\\x41"z"'):
         out.append((t, r6))
     for t in (b'"\\300\\u00e9"', b'"\\300\xc3\xa9"', b'"\\101"', b'"\\101\xce\xbb"', b'"\\001\\002\\003"', b'"\\x41\\x42"', b'"\\^a\\^Z\\^@\\^1"',
@@ -77,6 +83,11 @@ def corpus_chars():
             out.append((b"?" + bytes([c]) + suffix, el))
             out.append((b"?\\" + bytes([c]) + suffix, el))
         out.append((b"[?" + bytes([c]) + b" ?\\" + bytes([c]) + b"]", el))
+    for c in range(256):
+        for intro in (b"^", b"C-", b"M-", b"x", b"x4", b"u", b"u004", b"U", b"N", b"N{", b"N{U+", b"1", b"12"):
+            out.append((b"?\\" + intro + bytes([c]), el))
+            out.append((b"[?\\" + intro + bytes([c]) + b"]", el))
+        out.append((b"#\\x4" + bytes([c]), r6))
     for head in (b"#\\a", b"#\\x3bb", b"#\\space", b"#\\\xce\xbb", b"#\\x41"):
         for sep in (b"\t", b"\n", b"\r", b"\x0c", b";c\n", b"\t1", b"\n#\\b"):
             out.append((head + sep, r6))
@@ -164,6 +175,14 @@ def corpus_lists():
     for t in texts:
         for o in osets:
             out.append((t, o))
+    # every byte directly after the dot, a lone sign, a number, a name, a character and a closer (delimiter sets must agree)
+    for c in range(256):
+        cb = bytes([c])
+        for t in (b"(a ." + cb + b"b)", b"(a ." + cb + b" b)", b"(-" + cb + b"1)", b"(+" + cb + b")", b"(1" + cb + b"2)", b"(1.5" + cb + b"2)",
+                  b"1" + cb + b"2", b"-" + cb + b"1", b"(a" + cb + b"b)", b"(#t" + cb + b"b)", b"(#\\a" + cb + b" b)", b"(\"s\"" + cb + b"b)",
+                  b"(a . b" + cb + b")", b"(a)" + cb + b"b", b"#(1" + cb + b"2)", b"(1e5" + cb + b"2)", b"(#x1f" + cb + b"2)", b"(. " + cb + b")"):
+            for o in (DEFAULT, ELISP, P(br=1, dg=1)):
+                out.append((t, o))
     for n in (1, 2, 126, 127, 128, 129, 200):
         for op, cl in ((b"(", b")"), (b"#(", b")"), (b"[", b"]"), (b"'", b""), (b"('", b")"), (b"(a . ", b")"), (b"#(1 ", b")")):
             for o in (DEFAULT, P(br=1)):
